@@ -114,7 +114,8 @@ ExpLinesFrom(text, runs, k, cur) ==
   IF k > Len(runs) THEN <<cur>>
   ELSE IF Len(runs[k]) = 1 THEN <<cur>> \o ExpLinesFrom(text, runs, k + 1, <<>>)
   ELSE LET st == runs[k][1] cps == SegCps(text, runs[k][2]) IN
-       ExpLinesFrom(text, runs, k + 1, cur \o [c \in 1..Len(cps) |-> [cp |-> cps[c], b |-> st.b, i |-> st.i, u |-> st.u, col |-> st.col, bg |-> st.bg]])
+       ExpLinesFrom(text, runs, k + 1, cur \o [c \in 1..Len(cps) |-> [cp |-> cps[c], b |-> st.b, i |-> st.i, u |-> st.u, col |-> st.col, bg |-> st.bg,
+                                                                     rcol |-> 0, rbg |-> 0]])   \* (no tag for nothing)
 
 RefFile(fmt, s) ==
   LET pay == RefLinesFrom(fmt, s.text, RunsOf(s), 1, <<>>)
